@@ -1,0 +1,15 @@
+//go:build verif
+
+package character
+
+import "sort"
+
+// VerifRegistered returns the registered keys, sorted (verification only).
+func VerifRegistered() []string {
+	out := make([]string, 0, len(characterCatalog))
+	for k := range characterCatalog {
+		out = append(out, string(k))
+	}
+	sort.Strings(out)
+	return out
+}
